@@ -430,6 +430,7 @@ async fn one_connection(
         // a stalled first flight: the ClientHello dribbles in while a reload may happen
         seg: if stall_us > 0 { Cut::Fixed(64) } else { Cut::All },
         max_fragment: None,
+                pace: None,
     };
     let conn = match patht::connect_raw(LISTEN.parse().unwrap(), SocketAddr::new("203.0.113.90".parse().unwrap(), 42_000 + k as u16), Default::default()) {
         Some(c) => c,
